@@ -435,9 +435,14 @@ pub fn load_findings() -> Result<Vec<Finding>, String> {
 /// lines and return the process exit code.
 pub fn finish(run: &Run) -> i32 {
     let root = verif_root();
-    if let Some(m) = run.machinery_error.lock().unwrap().clone() {
+    let machinery = run.machinery_error.lock().unwrap().clone();
+    if let Some(m) = &machinery {
         eprintln!("MACHINERY-ERROR property={} {}", run.prop, m);
-        return 2;
+        // every recorded violation has been confirmed by a by-the-book slow path, so violations
+        // are still reported below (exit 1); without any, a machinery error is exit 2, no verdict
+        if run.viols.lock().unwrap().is_empty() {
+            return 2;
+        }
     }
     let findings = match load_findings() {
         Ok(f) => f,
@@ -581,6 +586,10 @@ pub fn finish(run: &Run) -> i32 {
             transitions
         );
         return 1;
+    }
+    if machinery.is_some() {
+        // only known findings were seen, and a part of the machinery failed: no verdict
+        return 2;
     }
     if states == 0 || transitions == 0 {
         eprintln!("MACHINERY-ERROR property={} explored nothing", run.prop);
